@@ -19,6 +19,8 @@ CHECKS = {
          "regexp program encoded as bounded Pike-VM reachability (validated against MatchString each run); patterns enumerated concretely and parsed natively; D15 known finding excluded; engine; z3"),
  "C04": ("NetworkRule.Match on rules produced by the real parser from the modifier grammar (every single modifier with every value set in every value order, seeded pairs and multi-modifier rules) against the documented semantics of each modifier, for a field-wise symbolic request (flags, one-hot type, DNS type, client name/IPv4/IPv6, sorted tags, source and request hosts of symbolic bytes plus PSL tails)",
          "PSL model validated each run; parsed value lists cross-checked natively against the rule text; pattern conjunct fixed true; engine; z3"),
+ "C10": ("loadDNSRewrite on symbolic values: short form up to 5/8 bytes, normal form with every response-code and record-type keyword of the dns tables and symbolic values up to 5/8 bytes for the nine handled record types: accepted => published shape (dynamic type by record type, CNAME alone, RRType only with success), rejected => nil, deterministic, no crash",
+         "netip.ParseAddr contract stub on symbolic input; dns tables imported natively; engine; z3"),
  "C16": ("unbounded in the fields the function reads (64-bit option word, 32-bit mask, exception flag fully symbolic under the parser's representation invariant); counterexamples replayed from rule text through the real parser",
          "InvRule on option words (validated natively on the repo's own rule corpus); go/ssa lowering; engine; z3"),
 }
